@@ -227,7 +227,7 @@ func checkC07(p *Prog, rp *Report) {
 		m := readerMachine(p, script)
 		st := initState(m, "control")
 		rid := st.alloc(types.Typ[types.Int], OpaqueV{"bufio"})
-		prID := st.alloc(prT, mkStruct(prT, map[string]Val{"reader": Ptr{Obj: rid}}))
+		prID := st.alloc(prT, mkStruct(prT, map[string]Val{roleField(prT, "*bufio.Reader", "reader"): Ptr{Obj: rid}}))
 		refPos := 0
 		for call := 0; call < 6; call++ {
 			st.Status = stRun
@@ -374,20 +374,46 @@ func checkC07(p *Prog, rp *Report) {
 	// C07-ONE
 	one := rp.Rule("C07-ONE", "every consumer obtains paragraphs through Next; nothing else reads the reader", 4)
 	readers := map[string]bool{}
+	readerField := fieldIndex(structOf(prT), roleField(prT, "*bufio.Reader", "reader"))
+	fromReaderField := func(v ssa.Value) bool {
+		// the value is (a load of) the buffered-reader field of a ParagraphReader
+		for depth := 0; depth < 4; depth++ {
+			switch x := v.(type) {
+			case *ssa.UnOp:
+				v = x.X
+				continue
+			case *ssa.FieldAddr:
+				return derefStruct(x.X.Type()) == structOf(prT) && x.Field == readerField
+			case *ssa.Field:
+				return x.X.Type().Underlying() == types.Type(structOf(prT)) && x.Field == readerField
+			}
+			break
+		}
+		return false
+	}
 	for _, fn := range p.SrcFuncs("control") {
-		tm := newTermer()
 		for _, c := range allCalls(fn) {
 			n := calleeName(c.Common())
 			if strings.HasPrefix(n, "(*bufio.Reader).") || n == "io/ioutil.ReadAll" || n == "io.ReadAll" {
 				for _, a := range c.Common().Args {
-					if strings.HasSuffix(tm.term(a), ".reader") {
+					if mi, ok := a.(*ssa.MakeInterface); ok {
+						a = mi.X
+					}
+					if fromReaderField(a) {
 						readers[fname(fn)] = true
 					}
 				}
 			}
 		}
 	}
-	allowedReaders := map[string]bool{"(*control.ParagraphReader).Next": true, "(*control.ParagraphReader).decodeClearsig": true}
+	// allowed: Next and what it calls; the constructor and what it calls (the clearsign decoder runs before the first Next)
+	allowedReaders := map[string]bool{}
+	for _, f := range reachableRepoFuncs(next) {
+		allowedReaders[fname(f)] = true
+	}
+	for _, f := range reachableRepoFuncs(p.Func("control", "NewParagraphReader")) {
+		allowedReaders[fname(f)] = true
+	}
 	okReaders := true
 	var extra []string
 	for r := range readers {
@@ -397,20 +423,30 @@ func checkC07(p *Prog, rp *Report) {
 		}
 	}
 	sort.Strings(extra)
-	one.check(okReaders && readers["(*control.ParagraphReader).Next"], "control.ParagraphReader.reader", pos, "read only by Next (and by the clearsign decoder before the first Next)", fmt.Sprintf("the reader is also read by %v: consumers would see different sequences", extra))
-	for _, c := range []struct{ pkg, typ, name string }{{"control", "ParagraphReader", "All"}, {"control", "", "decode"}, {"control", "", "decodeSlice"}} {
-		var fn *ssa.Function
-		if c.typ != "" {
-			fn = p.Method(c.pkg, c.typ, c.name)
-		} else {
-			fn = p.Func(c.pkg, c.name)
+	nextReads := false
+	for _, f := range reachableRepoFuncs(next) {
+		if readers[fname(f)] {
+			nextReads = true
 		}
-		key := "control." + c.name
-		if fn == nil {
-			one.bad(key, "", "function not found", nil)
+	}
+	one.check(okReaders && nextReads, "control.ParagraphReader:buffered-reader", pos, "read only by Next and its helpers (and by the constructor's clearsign decoder before the first Next)", fmt.Sprintf("the reader is also read by %v: consumers would see different sequences", extra))
+	// the consumers: All and the decoder entry point must reach Next (they have no other way to paragraphs,
+	// since nothing but Next reads the reader)
+	for _, c := range []struct {
+		key string
+		fn  *ssa.Function
+	}{{"control.ParagraphReader.All", p.Method("control", "ParagraphReader", "All")}, {"control.Decoder.Decode", p.Method("control", "Decoder", "Decode")}, {"control.Unmarshal", p.Func("control", "Unmarshal")}} {
+		if c.fn == nil {
+			one.bad(c.key, "", "function not found", nil)
 			continue
 		}
-		one.check(len(callsNamed(fn, next.String())) >= 1, key, p.Pos(fn.Pos()), "obtains paragraphs by calling Next", "does not call Next: it reads paragraphs some other way")
+		reaches := false
+		for _, f := range reachableRepoFuncs(c.fn) {
+			if f == next {
+				reaches = true
+			}
+		}
+		one.check(reaches, c.key, p.Pos(c.fn.Pos()), "obtains paragraphs by calling Next", "does not reach Next: it reads paragraphs some other way")
 	}
 	// C07-LONGLINES
 	ll := rp.Rule("C07-LONGLINES", "lines are read without a length limit", 1)
